@@ -104,6 +104,17 @@ def gen_tasks(tier, seed):
         for cls, ed, kw in insts:
             for vec in vectors(cls, tier, rng):
                 tasks.append({"name": name, "cls": cls, "edges": ed, "kwargs": kw, "vec": vec})
+    # hand-made instances beyond the enumerated sizes: a flow whose greedy decomposition is sub-optimal and contains a
+    # zero-excess sub-path (flow-safe paths), and a safe walk that crosses one SCC edge twice with the cycle edges
+    # inserted before it (so that column order differs from walk order; fix-via-bounds)
+    greedy_subopt = [("0", "1", 7), ("0", "2", 5), ("1", "2", 7), ("2", "6", 4), ("2", "4", 5), ("2", "3", 3), ("4", "6", 5), ("3", "6", 3)]
+    for cls, kw in (("MinFlowDecomp", {"weight_type": "int"}), ("kFlowDecomp", {"k": 3, "weight_type": "int"})):
+        for vec in vectors(cls, tier, rng):
+            tasks.append({"name": "greedy_suboptimal_zero_excess", "cls": cls, "edges": greedy_subopt, "kwargs": kw, "vec": vec})
+    twice = [("a", "b", 1), ("b", "x", 1), ("y", "a", 1), ("x", "y", 2), ("s", "x", 1), ("y", "t", 1)]
+    for cls, kw in (("MinFlowDecompCycles", {"weight_type": "int"}), ("kFlowDecompCycles", {"k": 1, "weight_type": "int"}), ("kLeastAbsErrorsCycles", {"k": 1, "weight_type": "int"})):
+        for vec in vectors(cls, tier, rng):
+            tasks.append({"name": "scc_edge_twice_in_safe_walk", "cls": cls, "edges": twice, "kwargs": kw, "vec": vec})
     # group by (instance, class): one task evaluates all vectors against the baseline
     groups = {}
     for t in tasks:
